@@ -132,6 +132,39 @@ static void shm_census(pid_t sp, pid_t cp, int *files, int *dirs)
 	}
 	closedir(d);
 }
+/* /dev/shm hygiene: entries with our server-pid prefix that did not exist when the scenario started were created by
+ * it; after the final census they are removed (only a broken library leaves any).  Older entries are never touched. */
+static char g_names0[256][64];
+static int g_nnames0;
+static void shm_names_snapshot(pid_t sp)
+{
+	char pre[32];
+	g_nnames0 = 0;
+	snprintf(pre, sizeof pre, "qb-%d-", (int)sp);
+	DIR *d = opendir("/dev/shm");
+	struct dirent *e;
+	if (!d) return;
+	while ((e = readdir(d)))
+		if (!strncmp(e->d_name, pre, strlen(pre)) && g_nnames0 < 256) snprintf(g_names0[g_nnames0++], 64, "%s", e->d_name);
+	closedir(d);
+}
+static void shm_sweep_new(pid_t sp)
+{
+	char pre[32], cmd[256];
+	snprintf(pre, sizeof pre, "qb-%d-", (int)sp);
+	DIR *d = opendir("/dev/shm");
+	struct dirent *e;
+	if (!d) return;
+	while ((e = readdir(d))) {
+		if (strncmp(e->d_name, pre, strlen(pre)) || strchr(e->d_name, '\'')) continue;
+		int old = 0;
+		for (int i = 0; i < g_nnames0; i++) if (!strcmp(g_names0[i], e->d_name)) old = 1;
+		if (old) continue;
+		snprintf(cmd, sizeof cmd, "rm -rf '/dev/shm/%s'", e->d_name);
+		(void)!system(cmd);
+	}
+	closedir(d);
+}
 static void shm_list(pid_t sp)
 {
 	char cmd[160];
@@ -531,6 +564,7 @@ static void scenario_client(int raw, int transport, int op, int queued, int mode
 	fd_census(&g_b0);
 	int f00, d00;                      /* stale entries of an earlier process that had our pid are not ours */
 	shm_census(g_self, -1, &f00, &d00);
+	shm_names_snapshot(g_self);
 	vt_ev("Start"); vt_i(raw ? 2 : 1); vt_i(transport); vt_i(op); vt_i(queued); vt_i(mode); vt_i(N); vt_res(); vt_end();
 
 	qb_ipcs_service_t *s = service_start(name, transport);
@@ -618,6 +652,7 @@ static void scenario_client(int raw, int transport, int op, int queued, int mode
 		f -= f00; d -= d00;
 		if (f || d) shm_list(g_self);
 		vt_ev("End"); vt_res(); vt_i(extra); vt_i(lost); vt_i(f); vt_i(d); vt_end();
+		if (f || d) shm_sweep_new(g_self);
 	}
 }
 
@@ -788,6 +823,7 @@ int main(int argc, char **argv)
 	signal(SIGPIPE, SIG_IGN);
 	signal(SIGALRM, on_alarm);
 	wc_sh = shared_page();
+	vt_ev("Hello"); vt_i(g_self); vt_res(); vt_end();      /* not part of any scenario: lets the driver clean up after an abort */
 	struct vt_line L;
 	while (vt_readline(f, &L)) {
 		alarm(60);
